@@ -8,6 +8,12 @@ NOT_APPLICABLE = {f"C{i:02d}": _PENDING for i in range(1, 21)}
 TRUST = "Trusted: rustc/std float semantics, the harness' own oracle code, the python driver. Held = held on the executions observed (exhaustive only for the sub-domains named in evidence)."
 
 CLAIMS = {
+    "C05": {
+        "text": "Runtime monitors over the real transfer functions: thorough pushes all 2^32 f32 bit patterns through each of the five integer fast paths (sRGB, Rec OETF, Adobe, P3 gamma -> u8; ProPhoto -> u16; quick: stride-31 sweep plus every pattern within 2^12 of each exponent and table-bucket boundary and the hostile set) and judges each code against max*f(x) of the standard curve (error < 0.6, exact outside the tie band), saturation, monotonicity of the stream, reachability of every code and absence of panics; the cfg hook and std ub_checks make an out-of-range table index an observable event, and Miri + ASan execute the hostile/boundary set. All codes are decoded and re-encoded; the generic float curves are compared with the model, inverted and checked for monotonicity on straddle sets of both knees plus dense and seeded points; Rgb/Luma wiring is checked bit-exactly.",
+        "design_ref": "DESIGN.md section 3, C05",
+        "note": TRUST + " The 0.1 tie band and the 0.6 bound are the ones the property states; decode tables are allowed 1e-7 (the generated tables use a continuity-adjusted alpha).",
+        "technique": "runtime monitoring: exhaustive input sweep with reference-curve oracle + stream monotonicity monitor; Miri/ASan/ub_checks/cfg-hook for the unchecked table read",
+    },
     "C06": {
         "text": "Runtime monitor with an exact-integer oracle over the real IntoStimulus/FromStimulus impls: thorough sweeps all 2^32 f32 bit patterns into u8,u16,u32,u64,u128 (quick: stride 509 plus dense windows at every exponent boundary, k/255 grid, ties and the hostile set), judges saturation (<=0, -inf -> 0; >=1, +inf, NaN -> MAX), nearest-integer within one rounding, and monotonicity over ascending patterns; f64 inputs are hostile/structured/seeded; all u8 and u16 sources and a strided+windowed u32 set (u64/u128 seeded+structured) go to every target with 0->0, MAX->1.0|MAX, monotonicity, widen/narrow and int->float->int round trips; into_format wiring on Rgb/Rgba/Luma.",
         "design_ref": "DESIGN.md section 3, C06",
